@@ -2842,6 +2842,16 @@ HashtableBase<KeyType,ValueType,HashFunctorType>::EnsureTableAllocated()
 {
    if (this->_table == NULL)
    {
+      if (this->_tableSize == 0)
+      {
+         // A moved-from table (or one constructed with PreallocatedItemSlotsCount(0)) has no slots at all;
+         // fall back to the default capacity so that it can be used like any other empty table.
+         this->_tableSize      = MUSCLE_HASHTABLE_DEFAULT_CAPACITY;
+#ifndef MUSCLE_HASHTABLE_EXCLUDE_TABLE_INDEX_TYPE_FIELD
+         this->_tableIndexType = this->ComputeTableIndexTypeForTableSize(this->_tableSize);
+#endif
+      }
+
       switch(this->GetTableIndexType())
       {
          case TABLE_INDEX_TYPE_UINT8:
